@@ -310,6 +310,11 @@ class Prop:
                             continue
                         nodes = _label(shape, lab)
                         yield dict(univ=UNIV, calc=None, typed=False, nodes=nodes, ops=ops, rev=rev, mode="full", ks=_k(ks))
+        # typed trees (TypedNode / TypedTree share the search code; the system root and add() differ)
+        for n in range(1, 4 if tier == "quick" else 5):
+            for shi, shape in enumerate(H.forests(n)):
+                nodes = _label(shape, lambda i, d, s, t: ((1 if not t else [0, 2, 3][d % 3]), ["x", "y"][(i + s) % 2], None, None))
+                yield dict(univ=UNIV, calc=None, typed=True, nodes=nodes, ops=[], rev=bool(shi % 2), mode="full", ks=_k(ks))
         nrand = 30 if tier == "quick" else 160
         nmaxr = 14 if tier == "quick" else 30
         for j in range(nrand):
